@@ -12,8 +12,9 @@ structure GEnv where
   nrules : Nat
   bpop : Nat
   jmp : Nat
+  customOp : Nat
 
-def Env.genv (env : Env) : GEnv := { acts := env.acts, nrules := env.rules.size, bpop := env.bpop, jmp := env.jmp }
+def Env.genv (env : Env) : GEnv := { acts := env.acts, nrules := env.rules.size, bpop := env.bpop, jmp := env.jmp, customOp := env.customOp }
 
 structure Gate where
   flag : FlagId
@@ -50,6 +51,8 @@ def effSafe (ge : GEnv) (g : Gate) : Eff → Bool
   | .loopBegin | .loopEnd | .flagsPush | .flagsPop | .addErr | .flagsSwitch => true
   | .breakCont => !g.gated ge.bpop && !g.gated ge.jmp
   | .setFlag f v => f != g.flag || v == g.blocked
+  | .consumeCustom => true
+  | .commitCustom => !g.gated ge.customOp
   | .unknown _ => false
 
 def actSafe (ge : GEnv) (g : Gate) (a : Nat) : Bool := ((ge.acts[a]!).effs).all (effSafe ge g)
@@ -110,8 +113,39 @@ theorem get_set_same (f : Flags) (a : FlagId) (v : Bool) : (f.set a v).get a = v
 
 /-! ### once a macro has run, `switched` stays set -/
 
+theorem advance_switched (env : Env) (s : PState) : (advance env s).switched = s.switched := by
+  simp only [advance]; split <;> rfl
+
+theorem advanceTo_switched (env : Env) (t : Nat) : ∀ (fuel : Nat) (s : PState), (advanceTo env t fuel s).switched = s.switched
+  | 0, _ => rfl
+  | n+1, s => by
+    simp only [advanceTo]
+    split
+    · rw [advanceTo_switched env t n, advance_switched]
+    · rfl
+
+theorem prepareCustom_switched (env : Env) (s : PState) : (prepareCustom env s).1.switched = s.switched := by
+  simp only [prepareCustom]
+  split
+  · rfl
+  · split
+    · rw [advanceTo_switched]
+    · rfl
+
+theorem consumeCustom_switched (env : Env) (s : PState) : (consumeCustom env s).switched = s.switched := by
+  simp only [consumeCustom]
+  split
+  · rfl
+  · rw [advanceTo_switched]
+
+theorem commitCustom_switched (env : Env) (s : PState) : (commitCustom env s).switched = s.switched := by
+  simp only [commitCustom]; split <;> rfl
+
 theorem runEff_switched (env : Env) (e : Eff) (s : PState) (h : s.switched = true) : (runEff env s e).switched = true := by
-  cases e <;> simp only [runEff] <;> (try split) <;> (try split) <;> simp_all
+  cases e with
+  | consumeCustom => simp only [runEff]; rw [consumeCustom_switched]; exact h
+  | commitCustom => simp only [runEff]; rw [commitCustom_switched]; exact h
+  | _ => simp only [runEff] <;> (try split) <;> (try split) <;> simp_all
 
 theorem foldl_switched (env : Env) : ∀ (l : List Eff) (s : PState), s.switched = true → (l.foldl (runEff env) s).switched = true
   | [], _, h => h
@@ -120,10 +154,12 @@ theorem foldl_switched (env : Env) : ∀ (l : List Eff) (s : PState), s.switched
 theorem evalPred_switched (env : Env) (a : Nat) (s : PState) (h : s.switched = true) : (evalPred env s a).1.switched = true := by
   have h' := foldl_switched env (env.acts[a]!).effs s h
   simp only [evalPred]
-  split <;> simp_all
-
-theorem advance_switched (env : Env) (s : PState) : (advance env s).switched = s.switched := by
-  simp only [advance]; split <;> rfl
+  split
+  · exact h'
+  · exact h'
+  · rw [prepareCustom_switched]; exact h'
+  · exact h'
+  · exact h'
 
 theorem matchLit_switched (env : Env) (ic : Bool) (p0 : Nat) : ∀ (l : List Nat) (s : PState), (matchLit env ic p0 l s).1.switched = s.switched
   | [], _ => rfl
@@ -237,6 +273,51 @@ theorem not_switched_of (s s' : PState) (hm : s.switched = true → s'.switched 
   · rfl
   · rw [hm h0] at h; cases h
 
+/-- states that differ only in fields the invariant does not read -/
+theorem good_of_same (g : Gate) (s s' : PState) (h1 : s'.switched = s.switched) (h2 : s'.cfg = s.cfg) (h3 : s'.flagsStack = s.flagsStack)
+    (h4 : s'.trace = s.trace) (h5 : s'.memo1 = s.memo1) (h6 : s'.memo2 = s.memo2) (h : Good g s) : Good g s' := by
+  intro hsw
+  have h := h (by rw [← h1]; exact hsw)
+  exact ⟨by rw [h2]; exact h.cfg, by rw [h3]; exact h.stack, by rw [h4]; exact h.trace, by rw [h5]; exact h.m1, by rw [h6]; exact h.m2⟩
+
+theorem good_same' (g : Gate) (s : PState) (h : Good g s) (s' : PState) (h1 : s'.switched = s.switched) (h2 : s'.cfg = s.cfg)
+    (h3 : s'.flagsStack = s.flagsStack) (h4 : s'.trace = s.trace) (h5 : s'.memo1 = s.memo1) (h6 : s'.memo2 = s.memo2) : Good g s' :=
+  good_of_same g s s' h1 h2 h3 h4 h5 h6 h
+
+theorem advance_good (env : Env) (g : Gate) (s : PState) (h : Good g s) : Good g (advance env s) := by
+  simp only [advance]
+  split <;> exact good_of_same g s _ rfl rfl rfl rfl rfl rfl h
+
+theorem advanceTo_good (env : Env) (g : Gate) (t : Nat) : ∀ (fuel : Nat) (s : PState), Good g s → Good g (advanceTo env t fuel s)
+  | 0, _, h => h
+  | n+1, s, h => by
+    simp only [advanceTo]
+    split
+    · exact advanceTo_good env g t n _ (advance_good env g s h)
+    · exact h
+
+theorem prepareCustom_good (env : Env) (g : Gate) (s : PState) (h : Good g s) : Good g (prepareCustom env s).1 := by
+  simp only [prepareCustom]
+  split
+  · exact good_of_same g s _ rfl rfl rfl rfl rfl rfl h
+  · split
+    · exact advanceTo_good env g _ _ _ (good_of_same g s _ rfl rfl rfl rfl rfl rfl h)
+    · exact good_of_same g s _ rfl rfl rfl rfl rfl rfl h
+
+theorem consumeCustom_good (env : Env) (g : Gate) (s : PState) (h : Good g s) : Good g (consumeCustom env s) := by
+  simp only [consumeCustom]
+  split
+  · exact good_of_same g s _ rfl rfl rfl rfl rfl rfl h
+  · exact advanceTo_good env g _ _ _ (good_of_same g s _ rfl rfl rfl rfl rfl rfl h)
+
+theorem commitCustom_good (env : Env) (g : Gate) (s : PState) (hs : g.gated env.customOp = false) (h : Good g s) : Good g (commitCustom env s) := by
+  simp only [commitCustom]
+  split
+  · exact h
+  · intro hsw
+    have hc := h hsw
+    exact ⟨hc.cfg, hc.stack, by intro o ho; simp only [List.mem_cons] at ho; rcases ho with ho | ho; (· subst ho; exact hs); (· exact hc.trace o ho), hc.m1, hc.m2⟩
+
 theorem runEff_good (env : Env) (g : Gate) (e : Eff) (s : PState) (hs : effSafe env.genv g e = true) (h : Good g s) :
     Good g (runEff env s e) := by
   intro hsw
@@ -286,6 +367,10 @@ theorem runEff_good (env : Env) (g : Gate) (e : Eff) (s : PState) (hs : effSafe 
     · rw [get_set_ne _ _ _ _ hf]; exact h.cfg
   | flagsSwitch => simp [runEff] at hsw
   | addErr => exact ⟨h.cfg, h.stack, h.trace, h.m1, h.m2⟩
+  | consumeCustom => exact consumeCustom_good env g s (fun _ => h) hsw
+  | commitCustom =>
+    simp only [effSafe, Bool.not_eq_true'] at hs
+    exact commitCustom_good env g s hs (fun _ => h) hsw
   | unknown w => simp [effSafe] at hs
 
 theorem foldl_runEff_good (env : Env) (g : Gate) : ∀ (l : List Eff) (s : PState), l.all (effSafe env.genv g) = true → Good g s →
@@ -298,22 +383,16 @@ theorem foldl_runEff_good (env : Env) (g : Gate) : ∀ (l : List Eff) (s : PStat
 theorem runAct_good (env : Env) (g : Gate) (a : Nat) (s : PState) (hs : actSafe env.genv g a = true) (h : Good g s) :
     Good g (runAct env s a) := foldl_runEff_good env g _ s hs h
 
-/-- states that differ only in fields the invariant does not read -/
-theorem good_of_same (g : Gate) (s s' : PState) (h1 : s'.switched = s.switched) (h2 : s'.cfg = s.cfg) (h3 : s'.flagsStack = s.flagsStack)
-    (h4 : s'.trace = s.trace) (h5 : s'.memo1 = s.memo1) (h6 : s'.memo2 = s.memo2) (h : Good g s) : Good g s' := by
-  intro hsw
-  have h := h (by rw [← h1]; exact hsw)
-  exact ⟨by rw [h2]; exact h.cfg, by rw [h3]; exact h.stack, by rw [h4]; exact h.trace, by rw [h5]; exact h.m1, by rw [h6]; exact h.m2⟩
-
-theorem good_same' (g : Gate) (s : PState) (h : Good g s) (s' : PState) (h1 : s'.switched = s.switched) (h2 : s'.cfg = s.cfg)
-    (h3 : s'.flagsStack = s.flagsStack) (h4 : s'.trace = s.trace) (h5 : s'.memo1 = s.memo1) (h6 : s'.memo2 = s.memo2) : Good g s' :=
-  good_of_same g s s' h1 h2 h3 h4 h5 h6 h
-
 theorem evalPred_good (env : Env) (g : Gate) (a : Nat) (s : PState) (hs : actSafe env.genv g a = true) (h : Good g s) :
     Good g (evalPred env s a).1 := by
   have h' := foldl_runEff_good env g _ s hs h
   simp only [evalPred]
-  split <;> first | exact h' | exact good_of_same g (List.foldl (runEff env) s (env.acts[a]!).effs) _ rfl rfl rfl rfl rfl rfl h'
+  split
+  · exact h'
+  · exact h'
+  · exact prepareCustom_good env g _ h'
+  · exact good_of_same g (List.foldl (runEff env) s (env.acts[a]!).effs) _ rfl rfl rfl rfl rfl rfl h'
+  · exact good_of_same g (List.foldl (runEff env) s (env.acts[a]!).effs) _ rfl rfl rfl rfl rfl rfl h'
 
 /-- a guard fails while the flag is blocked -/
 theorem guard_fails (env : Env) (g : Gate) (a : Nat) (s : PState) (hg : isGuardAct env.genv g a = true) (h : Core g s) :
@@ -343,10 +422,6 @@ theorem memoOK_insert (g : Gate) (m : Memo) (pos id : Nat) (b : Bool) (e : Nat) 
   · exact hm pos' id' b' e' hid hget
 
 /-! ### the gating theorem -/
-
-theorem advance_good (env : Env) (g : Gate) (s : PState) (h : Good g s) : Good g (advance env s) := by
-  simp only [advance]
-  split <;> exact good_of_same g s _ rfl rfl rfl rfl rfl rfl h
 
 theorem matchLit_good (env : Env) (g : Gate) (ic : Bool) (p0 : Nat) : ∀ (l : List Nat) (s : PState), Good g s → Good g (matchLit env ic p0 l s).1
   | [], _, h => h
